@@ -307,16 +307,6 @@ theorem spec_uptoFork_body (env : PEnv) (pre : MatchList) (mh : Match) (st : Exe
 
 /-! ## `matches_exec` is `uptoFork` followed by the fork -/
 
-/-- What `matches_exec` does after `uptoFork`. -/
-def afterFork (env : PEnv) (post : MatchList) : AtFork → Prog (ExecSt × Bool)
-  | .abandoned st' => (if st'.chsrc = true then maildirClose st'.src else .ret ()).bind fun _ => .ret (st', true)
-  | .nofd st' => (if st'.chsrc = true then maildirClose st'.src else .ret ()).bind fun _ => .ret (st', true)
-  | .fork st' fd =>
-    (execP (some fd)).bind fun rc =>
-      .call (.close fd) fun _ =>
-        if (rc != 0) = true then (if st'.chsrc = true then maildirClose st'.src else .ret ()).bind fun _ => .ret (st', true)
-        else matchesExec env post st'
-
 theorem matchesExec_cons (env : PEnv) (mh : Match) (rest : MatchList) (st : ExecSt) :
     matchesExec env (mh :: rest) st =
       (execOne env mh st).bind fun x =>
